@@ -2,7 +2,7 @@
 //! build. E1 over lengths x headers x fill patterns and over single fields; E2 over the
 //! end-of-buffer windows / run tokens of the streaming decoder, reached through verify.
 
-use super::gen_codec::{for_each_tail, token_body, RUNS};
+use super::gen_codec::{for_each_tail, runs, token_body};
 use super::{found, Found};
 use crate::api::{Variant, V1024, V512};
 use crate::ctx::{catch, hex, unhex, Ctx, Part, Tier};
@@ -303,7 +303,7 @@ fn verify_sweeps<V: Variant>(ctx: &mut Ctx, pk: &V::Pk, dmax: usize, tailbits: u
         for last in [false, true] {
             for sign in [false, true] {
                 for low in [0u8, 1, 127] {
-                    for run in RUNS {
+                    for run in runs() {
                         jobs.push((align, last, sign, low, run));
                     }
                 }
@@ -327,7 +327,7 @@ fn verify_sweeps<V: Variant>(ctx: &mut Ctx, pk: &V::Pk, dmax: usize, tailbits: u
         .reduce(Tally::default, reduce);
     let mut part = Part::new(
         &format!("verify_run_tokens_{}", n),
-        "verify on bodies carrying a unary run in {0,1,93,94,95,96,255,256,257,511,512,513} on a middle / the last coefficient x sign x low in {0,1,127} x 8 alignments (where it fits), also with the last padding bit set",
+        "verify on bodies carrying a unary run in {0..=130, 255, 256, 257, 511, 512, 513} on a middle / the last coefficient x sign x low in {0,1,127} x 8 alignments (where it fits), also with the last padding bit set",
     );
     part.exhaustive = true;
     t.into_part(ctx, part, "true", "false");
